@@ -234,7 +234,26 @@ def T5(h):
     h.restore(t[5], [(oid(1), b'a3', None)], status='p')
 
 
-FILE_TEMPLATES = {'T1': T1, 'T2': T2, 'T3': T3, 'T4': T4, 'T5': T5, 'T6': T6, 'T10': T10}
+def T2L(h):
+    """T2 followed by a transaction that touches only a low oid (oids under two 6-byte prefixes exist)"""
+    T2(h)
+    h.commit([(oid(1), b'a3-low-only')])
+
+
+def T3E(h):
+    """T3 followed by empty transactions: the file ends in transactions without records"""
+    T3(h)
+    h.empty(b'e1', b'empty at the end')
+    h.empty(b'e2', b'another empty one')
+
+
+def TE(h):
+    """only empty transactions (more than 100 bytes of them)"""
+    for i in range(4):
+        h.empty(b'user%d' % i, b'nothing stored, but a description of some length %d' % i)
+
+
+FILE_TEMPLATES = {'T1': T1, 'T2': T2, 'T3': T3, 'T4': T4, 'T5': T5, 'T6': T6, 'T10': T10, 'T2L': T2L, 'T3E': T3E, 'TE': TE}
 MAPPING_TEMPLATES = {'T1': T1, 'T2': T2, 'T3': T3}
 
 
